@@ -12,7 +12,7 @@ import networkx as nx
 import gcmpy.message_passing.equations.automated_equation as _ae_module
 from gcmpy.message_passing.equations.automated_equation import AutomatedEquation
 
-from .. import setseam
+from .. import setseam, interesting
 
 from ..engine import describe_exc
 from ..models.percolation import expectation
@@ -235,6 +235,8 @@ def gen_motif(prng, max_edges):
         labels = [base + x for x in prng.sample(range(0, 12), len(verts))]          # width changes (9 -> 10, 999 -> 1000), big ints
     elif r < 0.12:
         labels = prng.sample([-12, -11, -2, -1, 0, 1, 2, 10, 11, 12, 21, 100, 101, 110, 111, 112], len(verts))
+    if prng.random() < 0.06:
+        labels = interesting.hash_twins(prng, list(labels))     # two vertices of one motif with equal hashes
     m = dict(zip(verts, labels))
     out = [[m[a], m[b]] for a, b in es]
     prng.shuffle(out)
@@ -364,7 +366,37 @@ def execute_overlap(sc, ctx):
     ctx.nt = True
 
 
+ATLAS_AT = 3
+
+
+def gen_atlas(prng, tier):
+    """Catalogue completeness: EVERY connected graph on 2..6 vertices (143 shapes, networkx graph atlas), each under its own
+    name, evaluated on ONE shared evaluator in a scheduler-chosen order with some revisits - whatever two small shapes an
+    implementation might confuse (a cache keyed by an incomplete invariant, ...), both are in this history."""
+    shapes = [g for g in nx.graph_atlas_g() if 2 <= g.number_of_nodes() <= 6 and nx.is_connected(g)]
+    motifs = []
+    for i, g in enumerate(shapes):
+        vs = list(g.nodes())
+        labels = prng.sample(range(0, 60), len(vs))
+        mp = dict(zip(vs, labels))
+        es = [[mp[a], mp[b]] if prng.random() < 0.5 else [mp[b], mp[a]] for a, b in g.edges()]
+        prng.shuffle(es)
+        motifs.append({"name": f"atlas-{i}", "edges": es})
+    order = list(range(len(motifs)))
+    prng.shuffle(order)
+    order += prng.sample(order, 25)                  # revisits
+    evals = []
+    for mi in order:
+        verts = sorted({v for e in motifs[mi]["edges"] for v in e})
+        ev = {"m": mi, "focal": prng.choice(verts)}
+        ev.update(gen_operands(prng, verts, "exact" if len(motifs[mi]["edges"]) <= 9 else "float"))
+        evals.append(ev)
+    return {"variant": "clean", "motifs": motifs, "evals": evals, "faults": [], "set_order": "natural", "atlas": True}
+
+
 def generate(prng, tier, index):
+    if index == ATLAS_AT:
+        return gen_atlas(prng, tier)
     if index % 5 == 4:
         return gen_overlap(prng, tier, index)
     big = tier == "thorough"
